@@ -977,8 +977,11 @@ def _strip(tr):
 
 
 def run(chk):
+    from concurrent.futures import ThreadPoolExecutor
     quick = chk.tier == 'quick'
     tier = 'quick' if quick else 'thorough'
+    t00 = _time.time()
+    phase = chk.notes.setdefault('phase_wall_s', {})
     chk.rule = ('spec->code: every behaviour of Gen_ParamCache (all histories over the alphabet to depth D, plus one '
                 'behaviour per transition of the abstract state graph to depth D2) replayed on real modules, on K '
                 'datatype/configuration shapes each, compared after every step; code->spec: random histories over 4 '
@@ -987,59 +990,86 @@ def run(chk):
                 'contains a suppressed announcement, an error or a recovery')
     for m in ('ParamCache', 'Gen_ParamCache', 'Trace_ParamCache', 'ParamCacheConc'):
         sany(m)
-    # 1 design checks
-    chk.add_tlc(model_check('ParamCache', f'MC_ParamCache_{tier}.cfg', timeout=1100))
-    chk.add_tlc(model_check('ParamCacheConc', f'MC_ParamCacheConc_{tier}.cfg', timeout=1100))
-    r = run_tlc('ParamCacheConc', 'MC_ParamCacheConc_nolock.cfg', timeout=600)
-    if not r.violated:
-        raise MachineryError('ParamCacheConc without the update lock satisfies the invariants: they have no teeth')
-    chk.notes['nolock_model_violates'] = r.violated[1]
+    ncpu = int(__import__('os').environ.get('VERIF_TLC_WORKERS', 0) or 0) or max(2, (__import__('os').cpu_count() or 4) // 3)
+    gens = [f'Gen_ParamCache_{tier}.cfg', f'Gen_ParamCache_cover_{tier}.cfg'] if quick else \
+           [f'Gen_ParamCache_thorough_{k}.cfg' for k in ('a', 'b', 'c')] + ['Gen_ParamCache_cover_thorough.cfg']
+    # all TLC jobs are subprocesses: start them side by side (threads only wait for them)
+    with ThreadPoolExecutor(max_workers=4 if quick else 3) as ex:
+        f_gen = [ex.submit(emit_behaviours, 'Gen_ParamCache', cfg, maximal_only=False, timeout=1100,
+                           heap='3g' if quick else '8g') for cfg in gens[:2]]
+        f_mc = [ex.submit(model_check, 'ParamCache', f'MC_ParamCache_{tier}.cfg', timeout=1100, workers=ncpu, heap='3g'),
+                ex.submit(model_check, 'ParamCacheConc', f'MC_ParamCacheConc_{tier}.cfg', timeout=1100, workers=ncpu,
+                          heap='3g' if quick else '8g'),
+                ex.submit(run_tlc, 'ParamCacheConc', 'MC_ParamCacheConc_nolock.cfg', timeout=600, workers=2, heap='2g')]
+        if not quick:
+            f_mc.append(ex.submit(model_check, 'ParamCacheConc', 'MC_ParamCacheConc_thorough3.cfg', timeout=1100,
+                                  workers=ncpu, heap='8g'))
+        f_gen += [ex.submit(emit_behaviours, 'Gen_ParamCache', cfg, maximal_only=False, timeout=1100, heap='8g')
+                  for cfg in gens[2:]]
 
-    # 2 spec -> code
-    behs = []
-    for cfg in (f'Gen_ParamCache_{tier}.cfg', f'Gen_ParamCache_cover_{tier}.cfg'):
-        r, b = emit_behaviours('Gen_ParamCache', cfg, maximal_only=False, timeout=1100, heap='6g')
-        chk.add_tlc(r)
-        behs += b
-    nshape = 1 if quick else 2
-    jobs = [(i, b, [_shape_for(i, k, sorted(b[0]['omit']), chk.seed) for k in range(nshape)], chk.seed)
-            for i, b in enumerate(behs)]
-    res = pool_map(_replay_job, jobs)
-    for (i, beh, shapes, _), bads in zip(jobs, res):
-        ops = [s['op'] for s in beh]
-        nontriv = any(s['op']['a'] not in ('Tick', 'Activate', 'Init') and
-                      (all(not v for cv in s['o'].values() for v in cv.values()) or s['c'][s['op']['p']][1] != 'ok')
-                      for s in beh[1:])
-        for k, bad in enumerate(bads):
-            chk.impl_traces += 1
-            chk.case(json.dumps([ops, beh[0]['omit'], shapes[k]], sort_keys=True), nontriv)
-            if bad:
-                chk.violation(_signature(bad), {'behaviour': beh, 'shape': shapes[k],
-                                                'seedstr': f'r:{chk.seed}:{i}:{k}', **bad})
-    if behs:
-        chk.sample({'behaviour': [s['op'] for s in behs[len(behs) // 2]], 'shape': jobs[len(behs) // 2][2][0]})
+        # 3/4 code -> spec drivers run while TLC enumerates
+        t0 = _time.time()
+        n = 220 if quick else 6000
+        seq = pool_map(_random_trace, [(chk.seed * 1000003 + i, 60 if quick else 120) for i in range(n)])
+        n = 120 if quick else 3000
+        thr = pool_map(_threaded_trace, [(chk.seed * 1000003 + i, 2 + i % 2, 3 if quick else 4) for i in range(n)])
+        phase['drivers'] = round(_time.time() - t0, 1)
+        f_tr = [ex.submit(_validate, seq), ex.submit(_validate, thr)]
 
-    # 3 code -> spec, sequential random histories
-    n = 250 if quick else 6000
-    recs = pool_map(_random_trace, [(chk.seed * 1000003 + i, 70 if quick else 120) for i in range(n)])
-    _judge(chk, recs, 'seq')
-    # 4 code -> spec, controlled threads
-    n = 150 if quick else 3000
-    recs = pool_map(_threaded_trace, [(chk.seed * 1000003 + i, 2 + i % 2, 3 if quick else 4) for i in range(n)])
-    _judge(chk, recs, 'thr')
+        # 2 spec -> code
+        nshape = 1 if quick else 2
+        nbeh = 0
+        for cfg, f in zip(gens, f_gen):
+            r, behs = f.result()
+            chk.add_tlc(r)
+            t0 = _time.time()
+            jobs = [(nbeh + i, b, [_shape_for(nbeh + i, k, sorted(b[0]['omit']), chk.seed) for k in range(nshape)], chk.seed)
+                    for i, b in enumerate(behs)]
+            nbeh += len(behs)
+            res = pool_map(_replay_job, jobs)
+            for (i, beh, shapes, _), bads in zip(jobs, res):
+                ops = [s['op'] for s in beh]
+                nontriv = any(s['op']['a'] not in ('Tick', 'Activate') and
+                              (all(not v for cv in s['o'].values() for v in cv.values()) or s['c'][s['op']['p']][1] != 'ok')
+                              for s in beh[1:])
+                for k, bad in enumerate(bads):
+                    chk.impl_traces += 1
+                    chk.case(json.dumps([ops, beh[0]['omit'], shapes[k]], sort_keys=True), nontriv)
+                    if bad:
+                        chk.violation(_signature(bad), {'behaviour': beh, 'shape': shapes[k],
+                                                        'seedstr': f'r:{chk.seed}:{i}:{k}', **bad})
+            if behs:
+                chk.sample({'behaviour': [s['op'] for s in behs[len(behs) // 2]], 'shape': jobs[len(behs) // 2][2][0]}, limit=2)
+            phase['replay ' + cfg] = round(_time.time() - t0, 1)
+            del behs, jobs, res
+
+        # 1 design checks
+        for f in f_mc[:2] + f_mc[3:]:
+            chk.add_tlc(f.result())
+        r = f_mc[2].result()
+        if not r.violated:
+            raise MachineryError('ParamCacheConc without the update lock satisfies the invariants: they have no teeth')
+        chk.notes['nolock_model_violates'] = r.violated[1]
+
+        for mode, recs, f in (('seq', seq, f_tr[0]), ('thr', thr, f_tr[1])):
+            _judge(chk, recs, mode, f.result())
+    chk.sample({'threaded_schedule': thr[0]['sched'], 'scripts': thr[0]['scripts']}, limit=6)
     chk.notes['threaded_runs_with_lock_contention'] = {
-        k: sum(1 for r in recs if r['blocked'][k]) for k in ('accessLock', 'updateLock')}
+        k: sum(1 for r in thr if r['blocked'][k]) for k in ('accessLock', 'updateLock')}
     if not all(chk.notes['threaded_runs_with_lock_contention'].values()):
         raise MachineryError('controlled thread executions never contended for a lock: schedules are vacuous')
-    chk.sample({'threaded_schedule': recs[0]['sched'], 'scripts': recs[0]['scripts']})
     chk.exhaustive = False
     chk.assumptions.append('thread interleavings are controlled at driver calls, send_reply and lock hand-over only '
                            '(line-level scheduling needs harness/detsched.py)')
+    phase['total'] = round(_time.time() - t00, 1)
 
 
-def _judge(chk, recs, mode):
-    traces = [_strip(r['trace']) for r in recs]
-    verdicts, st, tr = validate_traces('Trace_ParamCache', traces, 'Trace_ParamCache.cfg', timeout=1100)
+def _validate(recs):
+    return validate_traces('Trace_ParamCache', [_strip(r['trace']) for r in recs], 'Trace_ParamCache.cfg', timeout=1100)
+
+
+def _judge(chk, recs, mode, result):
+    verdicts, st, tr = result
     chk.states += st
     chk.transitions += tr
     for i, v in verdicts.items():
@@ -1051,7 +1081,7 @@ def _judge(chk, recs, mode):
             d = {k: recs[i][k] for k in recs[i] if k != 'trace'}
             chk.violation(_trace_sig(ev, v[1], mode), {'mode': mode, 'trace': recs[i]['trace'], 'failed_at': l, 'event': ev, **d})
     if recs:
-        chk.sample({mode + '_trace_prefix': [e['op'] for e in recs[0]['trace'][:6]]})
+        chk.sample({mode + '_trace_prefix': [e['op'] for e in recs[0]['trace'][:6]]}, limit=8)
 
 
 def replay(chk, rep):
